@@ -607,12 +607,12 @@ def classify_assert(e):
     frames = [f.name for f in traceback.extract_tb(e.__traceback__)]
     if "outside the die" in msg:
         return "ROutside"
-    if "rectangles overlap" in msg:
+    if "overlap" in msg.lower():
         return "ROverlap"
     if "total area" in msg:
         return "RArea"
     if "_check_rectangles" in frames:
-        return None
+        return "RCheck"                                      # the die's own consistency check, wording not recognised
     if frames and frames[-1] == "read_yaml":
         return "stream-type"                                 # isinstance(stream, TextIO) refused the stream object
     if "parse_yaml_die" in frames or "string_die" in frames:
@@ -992,7 +992,7 @@ def oracle_one(case, obs):
     if obs["v"] == "reject":
         if strictly_valid:
             note = ""
-            if obs.get("cls") == "ROverlap" and 0 < obs["eps"] < obs["deps"] / 2:
+            if obs.get("cls") in ("ROverlap", "RCheck") and 0 < obs["eps"] < obs["deps"] / 2:
                 note = " [netlist-eps: the class-wide epsilon was defined by the netlist, smaller than the die's own]"
             if obs.get("cls") == "stream-type" and case["form"] == "stream":
                 note = " [stream-handle: read_yaml refuses every open stream (isinstance(stream, typing.TextIO))]"
